@@ -508,7 +508,8 @@ fn fe_call_matches_at(b: &[u8], p: usize, c: &FeCall) -> bool {
         return false;
     }
     let (code, flags, size) = spec::parse_hdr(&b[p..]);
-    if flags & 3 != 1 || flags & !0xf != 0 || size > 4096 || p + 12 + size as usize > b.len() {
+    // a request: version 1, no reserved bits, and not flagged as a reply
+    if flags & 3 != 1 || flags & !0xf != 0 || flags & 4 != 0 || size > 4096 || p + 12 + size as usize > b.len() {
         return false;
     }
     let body = &b[p + 12..p + 12 + size as usize];
